@@ -182,6 +182,10 @@ class UserGSC:
         if self.look:
             # a user condition that inspects the tree (convergence curve): pure accessors only
             self.curve.append((tree.best_individual.fitness, [d.best_individual.fitness for _, d in tree.all_demes if d.best_individual is not None]))
+            # … and the demes' populations, histories and centroids, in the middle of whatever metaepoch is running
+            for _, d in tree.all_demes:
+                pop = d.current_population
+                self.curve.append((len(d.history), len(pop), None if d.centroid is None else float(d.centroid[0]), None if d.best_current_individual is None else d.best_current_individual.fitness))
         return tree.n_evaluations >= self.evals or tree.metaepoch_count >= self.metaepochs
 
     def __str__(self):
